@@ -318,6 +318,8 @@ impl ActorProperties {
         &self,
         message: SerializedMessage,
     ) -> Result<(), Box<MessagingErr<SerializedMessage>>> {
+        #[cfg(feature = "verif")]
+        crate::verif::point("send.status");
         if self.get_status() >= ActorStatus::Draining {
             return Err(Box::new(MessagingErr::SendErr(message)));
         }
@@ -331,6 +333,8 @@ impl ActorProperties {
             #[cfg(feature = "message_span_propogation")]
             span: None,
         };
+        #[cfg(feature = "verif")]
+        crate::verif::point("send.enqueue");
         Ok(self
             .message
             .send(MuxedMessage::Message(boxed))
